@@ -362,8 +362,22 @@ def main():
 
     for m in messages:
         log(m)
+    def symbolise(v):
+        d = v.get("detail") or ""
+        pcs = re.findall(r"0x[0-9a-f]{5,12}", d)
+        if not pcs or not v.get("exe"):
+            return ""
+        try:
+            out = subprocess.run(["addr2line", "-e", v["exe"], "-f", "-C", "-i"] + pcs[:2], stdout=subprocess.PIPE, stderr=subprocess.DEVNULL, timeout=20).stdout.decode("utf-8", "replace")
+            lines = [l for l in out.splitlines() if "/repo/" in l or "amgcl" in l]
+            return " ; ".join(l.replace("/repo/", "") for l in lines[:4])
+        except Exception:
+            return ""
     for v in confirmed:
         log("VIOLATION property=%s replay=%s" % (pid, v["replay"]))
+        sym = symbolise(v)
+        if sym:
+            log("  source=%s" % sym)
         log("  oracle=%s sig=%s" % (v.get("oracle"), json.dumps(v.get("sig"))))
         log("  detail=%s" % (v.get("detail") or "")[:800].replace("\n", " | "))
     if confirmed:
@@ -429,7 +443,7 @@ RULES = {
     "C15": "script = 2..12 operations on ONE solver object (make_solver<amg|relaxation, run-time solver>, all 9 solver types, both preconditioning sides, restart lengths 2..30) out of solve / solve with alternative matrix / precond.apply / rebuild and failing variants (zero, NaN, Inf, overflowing right-hand sides or guesses, zero alternative matrix, maxiter 1..4, preconditioner wrapper that throws / writes NaN / writes Inf at its k-th call); model: a freshly constructed object (rebuilds replayed) executes the same single operation, results compared bitwise incl. exception type; non-trivial = >=2 operations; distinct by hash(matrix, script, configuration)",
     "C19": "case = (format mm_sparse|mm_dense|bin_crs|bin_dense, value type double|float|complex|integer, index type, shape, row range, mode); modes: fault-free round trip (full + row range, bitwise vs the written model, symmetric storage), explicit fault ops on the image (truncate/flip/set/zero_tail/drop_line/dup_line, 1-3 per case, biased to banner/size line/index fields/ptr section), exhaustive truncation sweep of one small image (every byte offset), value-kind and storage-kind mismatch, corrupted banner keyword, inconsistent size fields; evaluations counts cases (a truncation sweep is one case with one read per byte offset, reads are in counters.damaged_reads); non-trivial = image actually damaged / non-empty matrix; distinct by hash(image bytes, ops, range)",
     "C10": "world = (valid input incl. 1x1/diagonal/disconnected/positive-offdiagonal/Dirichlet-row/n<coarse_enough/max_levels=1, kind in amg|relaxation-as-preconditioner|zero-copy amg|skyline_lu, run-time configuration, nt, pre-history of 0-3 unrelated solves); each world is executed under 4 simulated heaps (clean + 3 drawn from fill 00/ff/aa/snan/random x LIFO recycling x address shift) plus a ledger pass, and once per world under ASan+UBSan in the asan stage; non-trivial = degenerate input or >=2 levels; distinct by hash(matrix, configuration)",
-    "C09": "world = (component, matrix family/size/seed, nt, schedule strategy+seed); a case is non-trivial when nt>=2, the world under test took >=1 deviation from the canonical schedule and the matrix has >=2 rows; distinct by hash(matrix, component, nt, deviation list, configuration)",
+    "C09": "world = (component out of vector ops, inner product, product, structural kernels, spectral radius, Gauss-Seidel, ILU solves, hierarchy (4 coarsenings, near-nullspace vectors), full solve through the run-time interface, block adapters, tentative_prolongation; matrix family/size/seed; nt 1..32; schedule strategy+seed); each case runs a reference world (nt=1 or 17, canonical), the world under test and a second schedule; plain stage: scheduling points are forks, barriers, critical sections, singles; trace stage: additionally every instrumented memory access inside a parallel region is a seeded preemption point and an event for the happens-before conflict detector, candidates are confirmed by a directed re-run with the two accesses in the opposite order; non-trivial = nt>=2, >=1 deviation from the canonical schedule taken, >=2 rows; distinct by hash(matrix, component, nt, deviation list, configuration)",
 }
 
 if __name__ == "__main__":
